@@ -110,10 +110,12 @@ class counting_set {
       if (m_count_cache[slot].first == key) {
         m_count_cache[slot].second++;
       } else {
-        count_cache_flush(slot);
-        ASSERT_DEBUG(m_count_cache[slot].second == -1);
+        // Install the new entry before sending the evicted one: the send may
+        // run handlers that insert into this slot.
+        auto evicted               = m_count_cache[slot];
         m_count_cache[slot].first  = key;
         m_count_cache[slot].second = 1;
+        count_cache_send(evicted.first, evicted.second);
       }
     }
     if (m_count_cache[slot].second == std::numeric_limits<int32_t>::max()) {
@@ -121,9 +123,7 @@ class counting_set {
     }
   }
 
-  void count_cache_flush(size_t slot) {
-    auto key          = m_count_cache[slot].first;
-    auto cached_count = m_count_cache[slot].second;
+  void count_cache_send(const key_type &key, int32_t cached_count) {
     ASSERT_DEBUG(cached_count > 0);
     m_map.async_visit(
         key,
@@ -131,17 +131,25 @@ class counting_set {
           count += to_add;
         },
         cached_count);
+  }
+
+  void count_cache_flush(size_t slot) {
+    // Empty the slot before sending: the send may run handlers that insert.
+    auto key                   = m_count_cache[slot].first;
+    auto cached_count          = m_count_cache[slot].second;
     m_count_cache[slot].first  = key_type();
     m_count_cache[slot].second = -1;
+    count_cache_send(key, cached_count);
   }
 
   void count_cache_flush_all() {
+    // Inserts made by handlers during the flush must re-register the callback.
+    m_cache_empty = true;
     for (size_t i = 0; i < m_count_cache.size(); ++i) {
       if (m_count_cache[i].second > 0) {
         count_cache_flush(i);
       }
     }
-    m_cache_empty = true;
   }
   counting_set() = delete;
 
